@@ -110,6 +110,10 @@ C06_Clauses(cfg, D) ==
                   /\ (~PrepOk(D) => D.posts = <<>>),
    itemsOrder |-> (HasPost(D) /\ PrepOk(D)) => D.posts[1].items = D.preps[1].items,
    sameLen    |-> HasPost(D) => Len(D.posts[1].slots) = Len(D.posts[1].items),
+   \* every slot is the outcome of PROCESSING its item: when nothing cuts the batch short, every item - also one that prep
+   \* delivered as an error Result or as nil - has been handed to exec
+   processed  |-> (HasPost(D) /\ PrepOk(D) /\ ~Cancelled(D) /\ ~cfg.stopmode /\ N(cfg) >= 1) =>
+                   \A i \in 1..cfg.n : D.pipes[i].ins # <<>>,
    sameStore  |-> (\A k \in 1..Len(D.preps) : D.preps[k].sok) /\ (\A k \in 1..Len(D.posts) : D.posts[k].sok),
    \* slot i is the outcome of item i ...
    slotOutcome |-> (HasPost(D) /\ Len(D.posts[1].slots) = cfg.n) =>
@@ -150,6 +154,10 @@ C07_Clauses(cfg, D) ==
    everyItemOnce |-> Applies => \A i \in 1..cfg.n :
                         Cardinality({k \in 1..Len(D.pipes[i].ins) : D.pipes[i].ins[k].k = 1}) = (IF N(cfg) >= 1 THEN 1 ELSE 0),
    pipeShape     |-> Applies => \A i \in 1..cfg.n : PipeShapeOK(D.pipes[i]),
+   \* a failing item does not hold up the others: while its fallback is still running, the other workers get every other
+   \* item done (the fallback of the `fbhold` schedule waits for exactly that, and says whether it waited in vain)
+   noHoldUp      |-> \A i \in 1..cfg.n : \A k \in 1..Len(D.pipes[i].fbs) :
+                        "stalled" \in DOMAIN D.pipes[i].fbs[k] => ~D.pipes[i].fbs[k].stalled,
    \* (an item's slot keeps holding that item's outcome also after the node object has run again)
    slotKept      |-> ListsKept(D),
    budget        |-> Applies => \A i \in 1..cfg.n :
